@@ -50,6 +50,10 @@ def gen(seed):
                                                   {'a': 'swap_stdout', 'step': 'save'}))
                 spec['plan'].append(C.fault_entry(d, rng.choice(late),
                                                   {'a': 'swap_stdout', 'step': 'restore'}))
+            elif rng.random() < 0.25:
+                # closes the stream: reading the capture back fails, the run ends with that
+                # exception - and with the original streams back in place
+                spec['plan'].append(C.fault_entry(d, rng.choice(phases), {'a': 'close_stdout'}))
             else:
                 spec['plan'].append(C.fault_entry(d, rng.choice(phases),
                                                   {'a': 'replace_stdout',
